@@ -61,6 +61,10 @@ pub struct TimeoutOracle {
     clock_jumps: u64,
     /// per endpoint: (ms of its latest step, largest gap between consecutive steps)
     step_gap_ms: BTreeMap<usize, (u64, u64)>,
+    /// valid data/sync/ack frames lying in an endpoint's socket buffer, per (endpoint, source)
+    in_socket: BTreeMap<(usize, SocketAddr), u64>,
+    /// the same count as it stood when the step in progress began
+    in_socket_at_step: BTreeMap<(usize, SocketAddr), u64>,
 }
 
 impl TimeoutOracle {
@@ -86,6 +90,8 @@ impl TimeoutOracle {
             late_handshakes: 0,
             clock_jumps: 0,
             step_gap_ms: BTreeMap::new(),
+            in_socket: BTreeMap::new(),
+            in_socket_at_step: BTreeMap::new(),
         }
     }
 }
@@ -124,6 +130,8 @@ impl Oracle for TimeoutOracle {
             Rec::Call { op: Op::Create { ep }, local_ns, skipped: false, .. } => {
                 let ep = *ep;
                 self.base_ns.insert(ep, *local_ns);
+                self.in_socket.retain(|(e, _), _| *e != ep);
+                self.in_socket_at_step.retain(|(e, _), _| *e != ep);
                 self.conns.retain(|(e, _), _| *e != ep);
                 self.syn_times.remove(&ep);
                 self.handshake_timeouts.remove(&ep);
@@ -139,14 +147,29 @@ impl Oracle for TimeoutOracle {
                 self.consumed_now.clear();
                 let now_ms = self.ms(*ep, *local_ns);
                 self.cur_step = Some((*ep, *call, now_ms));
+                let snapshot: Vec<((usize, SocketAddr), u64)> = self.in_socket.iter().filter(|((e, _), n)| e == ep && **n > 0).map(|(k, n)| (*k, *n)).collect();
+                self.in_socket_at_step.retain(|(e, _), _| e != ep);
+                for (k, n) in snapshot {
+                    self.in_socket_at_step.insert(k, n);
+                }
                 let g = self.step_gap_ms.entry(*ep).or_insert((now_ms, 0));
                 g.1 = g.1.max(now_ms.saturating_sub(g.0));
                 g.0 = now_ms;
             }
-            Rec::Consumed { bytes, src_addr, .. } => {
+            Rec::Delivered { dst, src_addr, bytes, accepted: true, .. } => {
+                if matches!(bytes.first(), Some(&FRAME_DATA) | Some(&FRAME_SYNC) | Some(&FRAME_ACK)) && uv::Frame::read(bytes).is_some() {
+                    *self.in_socket.entry((*dst, *src_addr)).or_insert(0) += 1;
+                }
+            }
+            Rec::Consumed { ep, bytes, src_addr, .. } => {
                 if let Some(t) = bytes.first() {
                     if uv::Frame::read(bytes).is_some() {
                         self.consumed_now.push((*src_addr, *t));
+                        if *t == FRAME_DATA || *t == FRAME_SYNC || *t == FRAME_ACK {
+                            if let Some(n) = self.in_socket.get_mut(&(*ep, *src_addr)) {
+                                *n = n.saturating_sub(1);
+                            }
+                        }
                     }
                 }
             }
@@ -198,6 +221,16 @@ impl Oracle for TimeoutOracle {
                                 // frames consumed in this very step count as heard now
                                 let heard_now = self.consumed_now.iter().any(|(a, t)| *a == peer && (*t == FRAME_DATA || *t == FRAME_SYNC || *t == FRAME_ACK));
                                 let silence = local_ms.saturating_sub(c.heard_ms);
+                                // a step drains the socket: a frame of the peer that lay in the
+                                // socket buffer when this step began has been received, whether
+                                // or not the endpoint got round to reading it
+                                let waiting = self.in_socket_at_step.get(&key).cloned().unwrap_or(0);
+                                if !heard_now && silence >= timeout && waiting > 0 {
+                                    let d = format!(
+                                        "endpoint {} reported Error(Timeout) for its connection with {} at local time {} ms although {} valid frame(s) from that peer lay in its socket buffer when the step began and were not read",
+                                        ep, peer, local_ms, waiting);
+                                    return viol(prop, "timeout_with_frames_unread", d, *call);
+                                }
                                 if heard_now || silence < timeout {
                                     let d = format!(
                                         "endpoint {} reported Error(Timeout) for its connection with {} at local time {} ms: the peer was last heard at {} ms ({} ms of silence{}), active_timeout_ms = {}",
